@@ -188,9 +188,11 @@ def main(argv=None):
     tot_ob = sum(r.get("obligations", 0) for r in results)
     tot_dis = sum(r.get("discharged", 0) for r in results)
     print(f"{prop} {tier}: configs={len(results)} paths={sum(r.get('paths', 0) for r in results)} obligations={tot_ob} discharged={tot_dis} inconclusive={len(inconclusive)} violations={n_viol} known={len(known_printed)} engine_errors={len(engine_errors)} solver_s={sum(r.get('solver_time_s', 0) for r in results):.1f} wall_s={wall:.1f}")
+    if n_viol:
+        return 1  # every reported violation was replayed on the real code; harness errors elsewhere do not hide it
     if engine_errors:
         return 3
-    return 1 if n_viol else 0
+    return 0
 
 
 def write_evidence(mod, prop, tier, seed, results, n_viol, n_known, wall, inconclusive, engine_errors):
